@@ -496,7 +496,8 @@ type Outcome struct {
 	OtherSessionOK  bool  `json:"other_session_ok"` // witness of another session gets an answer afterwards
 	EndedEarly      bool  `json:"ended_early"`      // (idle scripts) the connection was ended while it was still sending
 	Note            string `json:"note,omitempty"`
-	Class           string `json:"class"` // projection compared with Conn.v: clean | wedged | ghost | double | kept
+	Class           string `json:"class"` // projection compared with Conn.v: clean | wedged | ghost | double | crash
+	Model           string `json:"model"` // the client behaviour of this script in the alphabet of Conn.v (tokens of oracle/conn/driver.ml)
 	WantKept        bool  `json:"want_kept"` // the script expects the connection to stay open
 }
 
@@ -723,9 +724,10 @@ func failingJoined() []byte {
 
 // burst: n failing requests written in one TCP write
 func (e *l2env) scriptBurst(n int, joined bool, rep int) Outcome {
-	out := Outcome{Script: "burst", Param: n, Rep: rep}
+	out := Outcome{Script: "burst", Param: n, Rep: rep, Model: fmt.Sprintf("F*%d", n)}
 	if joined {
 		out.Script = "burst_joined"
+		out.Model = fmt.Sprintf("J V V F*%d", n)
 	}
 	o, err := e.begin(joined, "", 0)
 	if err != nil {
@@ -753,7 +755,7 @@ func (e *l2env) scriptBurst(n int, joined bool, rep int) Outcome {
 // burstmix: a member sends one failing request followed, in the same TCP write, by n valid requests and
 // pose updates: the scheduler queue fills up while the main loop is ending the connection
 func (e *l2env) scriptBurstMix(n int, rep int, params string) Outcome {
-	out := Outcome{Script: "burst_mixed", Param: n, Rep: rep}
+	out := Outcome{Script: "burst_mixed", Param: n, Rep: rep, Model: fmt.Sprintf("J V V D*5 F V*%d", n)}
 	o, err := e.begin(true, params, 0)
 	if err != nil {
 		out.Note = "setup: " + err.Error()
@@ -781,8 +783,10 @@ func (e *l2env) scriptBurstMix(n int, rep int, params string) Outcome {
 func (e *l2env) scriptMalformed(kind int, joined bool) Outcome {
 	names := []string{"truncated_protobuf", "text_frame", "no_timestamp", "garbage_1MiB", "raw_garbage_bytes", "undecodable_body", "huge_declared_length", "unknown_opcode"}
 	out := Outcome{Script: "malformed_" + names[kind], Param: kind}
+	out.Model = []string{"B", "B", "B", "B", "B", "F", "B C", "B C"}[kind]
 	if joined {
 		out.Script += "_joined"
+		out.Model = "J V V " + out.Model
 	}
 	o, err := e.begin(joined, "", 0)
 	if err != nil {
@@ -836,6 +840,7 @@ func (e *l2env) scriptMalformed(kind int, joined bool) Outcome {
 // reset: abrupt TCP reset at point k of a short session
 func (e *l2env) scriptReset(k int) Outcome {
 	out := Outcome{Script: "reset", Param: k}
+	out.Model = []string{"X", "J X", "J V V X", "J V V X", "J V V V*200 X", "J V V C", "J V V C"}[k]
 	joined := k >= 2
 	o, err := e.begin(joined, "", 0)
 	if err != nil {
@@ -877,10 +882,11 @@ func (e *l2env) scriptReset(k int) Outcome {
 // stall: a member of S1 stops reading while another member floods the session; then it resets.
 // Observed offender = the stalled member.
 func (e *l2env) scriptStall(variant int) Outcome {
-	out := Outcome{Script: "stall_then_close", Param: variant}
+	out := Outcome{Script: "stall_then_close", Param: variant, Model: "J S E*600 X"}
 	params := ""
 	if variant == 1 {
 		out.Script = "stall_silent_idle"
+		out.Model = "J S E*600 Y T*300"
 		params = "idle=700ms&sync=50ms"
 	}
 	fail := func(err error) Outcome {
@@ -992,6 +998,8 @@ func (e *l2env) scriptStall(variant int) Outcome {
 func (e *l2env) scriptIdle(variant int) Outcome {
 	names := []string{"idle_silent", "idle_pinging", "idle_pose_only_unjoined", "idle_silent_joined", "idle_pose_only_joined"}
 	out := Outcome{Script: names[variant], Param: variant}
+	rep24 := func(t string) string { return strings.TrimSpace(strings.Repeat(t+" T*37 ", 24)) }
+	out.Model = []string{"T*300", rep24("V") + " T*300", rep24("D") + " T*300", "J V V T*300", "J V V " + rep24("D") + " T*300"}[variant]
 	idle := 400 * time.Millisecond
 	joined := variant == 3 || variant == 4
 	o, err := e.begin(joined, "idle="+idle.String()+"&sync=100ms", 0)
@@ -1076,6 +1084,13 @@ func (e *l2env) scriptHostile(k int) Outcome {
 		m = &dagazpb.DagazGetGroundPlaneRequest{Type: dagazpb.MsgType_MSG_TYPE_DAGAZ_GET_GROUND_PLANE_REQUEST, Timestamp: now(), RequestId: nextRid(),
 			Ray: &dagazpb.Ray{From: pt(-5, 1, -3), To: pt(7, -1, 4)}}
 	}
+	// what the request is for the shell is what the handlers do with it (same binary, handler level)
+	kind := l1Kind(mustMarshal(m))
+	out.Model = "J V V " + kind
+	if k == 5 {
+		out.Model += " D*50 V*50"
+	}
+	announceModel(out.Model) // should the server process die, the parent still knows what was being done
 	o.c.send(m)
 	if k == 5 {
 		// the client keeps talking after the poisonous request
@@ -1087,14 +1102,17 @@ func (e *l2env) scriptHostile(k int) Outcome {
 	}
 	// a refused or dropped request keeps the connection open: a well-behaved end follows
 	alive := o.c.ping(time.Second)
-	out.Note = fmt.Sprintf("connection answers after the request: %v; ", alive)
+	out.Note = fmt.Sprintf("handler-level verdict of the request: %s; connection answers after the request: %v; ", kind, alive)
 	if alive {
+		out.Model += " C"
 		o.c.tcp.Close()
 	}
 	e.observe(o, &out)
 	o.c.tcp.Close()
 	return out
 }
+
+var announceModel = func(string) {}
 
 // ---------------------------------------------------------------- child / parent
 
@@ -1181,6 +1199,7 @@ func l2Child(args []string) int {
 		emit("X", map[string]string{"error": "witness setup: " + err.Error()})
 		return 3
 	}
+	announceModel = func(m string) { emit("M", map[string]string{"model": m}) }
 	names := strings.Split(*scripts, ",")
 	rs := strings.Split(*reps, ",")
 	for i, name := range names {
@@ -1223,7 +1242,7 @@ type l2Report struct {
 	Crashes    []map[string]string `json:"crashes"`
 	Runs       int                `json:"runs"`
 	WallS      float64            `json:"wall_s"`
-	Distinct   []string           `json:"distinct_cases"` // (script, joined, class) triples for the Conn.v comparison
+	Distinct   []string           `json:"distinct_cases"` // script|model tokens|class, for the comparison with Conn.v
 }
 
 func l2Parent(args []string) int {
@@ -1268,6 +1287,7 @@ func l2Parent(args []string) int {
 		sc := bufio.NewScanner(stdout)
 		sc.Buffer(make([]byte, 1<<20), 1<<24)
 		curScript, curRep := "", 0
+		lastModel := "J V V P D*50 V*50"
 		done := false
 		violPerScript := map[string]int{}
 		killedFor := ""
@@ -1290,7 +1310,7 @@ func l2Parent(args []string) int {
 					rep.Counts[name] = map[string]int{}
 				}
 				rep.Counts[name][o.Class]++
-				distinct[fmt.Sprintf("%s|joined=%v|%s", name, o.Joined, o.Class)] = true
+				distinct[fmt.Sprintf("%s|%s|%s", name, o.Model, o.Class)] = true
 				ok, why := o.holds()
 				if !ok {
 					o.Note += "PROPERTY: " + why
@@ -1310,6 +1330,10 @@ func l2Parent(args []string) int {
 					killedFor = name
 					cmd.Process.Kill()
 				}
+			case strings.HasPrefix(l, "M "):
+				var m struct{ Model string }
+				json.Unmarshal([]byte(l[2:]), &m)
+				lastModel = m.Model
 			case strings.HasPrefix(l, "X "):
 				rep.Crashes = append(rep.Crashes, map[string]string{"script": curScript, "what": l[2:]})
 			case strings.HasPrefix(l, "Z "):
@@ -1341,12 +1365,12 @@ func l2Parent(args []string) int {
 			where = "(between scripts)"
 		}
 		rep.Crashes = append(rep.Crashes, map[string]string{"script": where, "rep": strconv.Itoa(curRep), "exit": fmt.Sprint(err), "stderr": firstLines(tail, 4), "frames": repoFrames(tail)})
-		rep.Violations = append(rep.Violations, Outcome{Script: where, Rep: curRep, Class: "crash", Note: "PROPERTY: the server process died: " + firstLines(tail, 3)})
+		rep.Violations = append(rep.Violations, Outcome{Script: where, Rep: curRep, Class: "crash", Model: lastModel, Note: "PROPERTY: the server process died: " + firstLines(tail, 3)})
 		if rep.Counts[where] == nil {
 			rep.Counts[where] = map[string]int{}
 		}
 		rep.Counts[where]["crash"]++
-		distinct[fmt.Sprintf("%s|joined=true|crash", where)] = true
+		distinct[fmt.Sprintf("%s|%s|crash", where, lastModel)] = true
 		// continue after the script that crashed the server
 		found := false
 		for i := idx; i < len(plan); i++ {
